@@ -807,6 +807,8 @@ class Flwdir(object):
 
     def _check_idxs_xy(self, idxs, streams=None):
         idxs = np.atleast_1d(idxs).ravel()
+        if idxs.size == 0:  # an empty list is a float array
+            idxs = idxs.astype(np.intp)
         # snap to streams
         streams = self._check_data(streams, "streams", optional=True)
         if streams is not None:
